@@ -61,6 +61,27 @@ CHECKS = {
              "and the solve verdict; histories that edit public settings before saving are included.",
          "5/C19", "Trusted base: TLC, independent JSON field parser in the harness (serde_json::Value), FloatOrd. Quick samples byte offsets; thorough enumerates all.",
          "fault enumeration validated against JsonIO.tla by TLC (trace validation)"),
+ "C05": (MC, "Lifecycle.tla (three threads, set_infinity interleavings, the two reads of the bound in DefaultSolver::new) is model-checked: a built solver's outcome is frozen and "
+             "depends only on its own reads; Consistency.tla relates pairs of real runs (13 transformations / configurations, same object solved twice, instances on concurrent threads) "
+             "mapped back to the base formulation: verdict class, weak duality across runs with explicitly computed slack, agreement of reported objectives, bit equality where demanded.",
+         "5/C05", "Trusted base: TLC, observer map-back and slack. faer backend not built; pairs without a full verdict on both sides are not compared (counted).",
+         "TLA+ model checking (TLC) + trace validation of run pairs against Consistency.tla"),
+ "C11": (MC, "KKT.tla defines the intended KKT matrix declaratively (origin of every stored entry and its coordinate, for both triangles, with sparse expansions of second-order and "
+             "generalised power cones); TLC checks every layout assembled by the real code (14 cone lists x all P patterns n<=3 x A patterns x 2 triangles) and every KKT state read "
+             "from real solvers after 0..200 iterations incl. re-solves (copies bit-equal, no regularisation left, sign pattern, regulariser value, identity at default start, H_K z = s).",
+         "5/C11", "Trusted base: TLC, Csc.tla, observer Schur complement. Operator agreement is checked through H z = s on symmetric cones only.",
+         "trace validation (TLC) of assembled layouts and solver KKT states against KKT.tla"),
+ "C15": (MC, "ConeStep.tla decides safe/bounded/tight in integer arithmetic for every interior integer point and direction of NN/zero/SOC cones (enumerated; MC_ConeStep checks convexity/monotonicity "
+             "of the predicates), validates the backtracking protocol of exp/power/genpower line searches probe by probe against observer membership, composite steps (incl. PSD) and "
+             "the shift-to-interior post-condition.", "5/C15",
+         "Trusted base: TLC, observer membership for nonsymmetric/PSD cones. PSD cones of dimension > 2 only through composite-step safety.",
+         "trace validation (TLC) of enumerated cone calls against ConeStep.tla + bounded model check of the predicates"),
+ "C17": (MC, "DSU.tla models the union-find at implementation level (arrays, path halving, union by rank) with a ghost partition; every behaviour (exhaustive small, adversarial equal-rank schedules, "
+             "random) is replayed on the real struct and arrays compared after every operation; Chordal.tla states the clique-tree validity predicates (partition, tree, post-order, separators, "
+             "running intersection, cover, block sizes, consecutive supernodes) and TLC evaluates them on every analysis of all graphs on <=5 (6,7 sampled/thorough) vertices x 3 merge strategies "
+             "and random larger graphs, under a watchdog.", "5/C17",
+         "Trusted base: TLC, replayer. Requires the sdp feature (BLAS through scipy-openblas trampolines).",
+         "TLA+ model enumeration with spec->impl replay (DSU) + trace validation of recorded clique trees (Chordal.tla)"),
 }
 NOT_APPLICABLE = [
  {"property_id": "C13", "reason": "Nesterov-Todd identities are real-analytic identities (square roots, matrix square roots) with no state, history or index structure for a TLA+ model to carry; TLC has no real arithmetic. The structural clause (KKT block = operator used for slack recovery) is decided under C11."},
